@@ -192,7 +192,8 @@ impl ExtendedPrivateKey {
             chain_code: child_chain_code_bytes,
             private_key: child_private_key,
             public_key: child_pub_key,
-            depth: self.depth + 1,
+            // The depth is one byte in the serialised form: a key at depth 255 has no children
+            depth: self.depth.checked_add(1).ok_or_else(|| BSVErrors::DerivationError("Cannot derive a child of a key at depth 255".into()))?,
             index,
             parent_fingerprint: fingerprint.to_vec(),
         })
